@@ -46,8 +46,8 @@ theorem all_congr2 {α} (l : List α) (f g : α → Bool) (h : ∀ x ∈ l, f x 
   | cons x xs ih =>
     simp only [List.all_cons, h x List.mem_cons_self, ih (fun y hy => h y (List.mem_cons_of_mem _ hy))]
 
-theorem reqOk_eq (s : Schema) (kvs : List (String × J)) (hz : ∀ k v, lookup kvs k = some v → isZero v = false) :
-    reqOk true s kvs = reqOk false s kvs := by
+theorem reqOk_eq (b1 b2 : Bool) (s : Schema) (kvs : List (String × J)) (hz : ∀ k v, lookup kvs k = some v → isZero v = false) :
+    reqOk b1 s kvs = reqOk b2 s kvs := by
   unfold reqOk
   apply all_congr2
   intro r _
@@ -55,12 +55,12 @@ theorem reqOk_eq (s : Schema) (kvs : List (String × J)) (hz : ∀ k v, lookup k
   | none => rfl
   | some v =>
     have := hz r v hl
-    cases lookup s.props r <;> simp [this]
+    cases lookup s.props r <;> cases b1 <;> cases b2 <;> simp [this]
 
-theorem propsOk_eq (r1 r2 : Schema → J → Bool) (s : Schema) (kvs : List (String × J))
+theorem propsOk_eq (b1 b2 : Bool) (r1 r2 : Schema → J → Bool) (s : Schema) (kvs : List (String × J))
     (hz : ∀ k v, lookup kvs k = some v → isZero v = false)
     (hr : ∀ kp ∈ s.props, ∀ v, lookup kvs kp.1 = some v → r1 kp.2 v = r2 kp.2 v) :
-    propsOk true r1 s kvs = propsOk false r2 s kvs := by
+    propsOk b1 r1 s kvs = propsOk b2 r2 s kvs := by
   unfold propsOk
   apply all_congr2
   intro kp hkp
@@ -90,14 +90,19 @@ theorem countOk_eq (s : Schema) (kvs : List (String × J)) (hz : ∀ kv ∈ kvs,
     simp [hz kv hkv]
   simp only [countOk, h]
 
+theorem countOkM_eq (m1 m2 : Mode) (s : Schema) (kvs : List (String × J)) (hz : ∀ kv ∈ kvs, isZero kv.2 = false) :
+    countOkM m1 s kvs = countOkM m2 s kvs := by
+  have h := countOk_eq s kvs hz
+  cases m1 <;> cases m2 <;> simp [countOkM, h]
+
 /-- JSON null stands for "unset": a required property given as null is missing, whatever x-nullable says -/
-theorem required_null_is_missing (skip : Bool) (d : Defs) (n : Nat) :
+theorem required_null_is_missing (skip : Mode) (d : Defs) (n : Nat) :
     validG skip d (n+1) { ty := "object", props := [("p", { ty := "string", nullable := true })], required := ["p"] } (.obj [("p", .null)]) = false := by
   simp [validG, reqOk, lookup, localOk, typeOk]
 
-/-- the documented relaxation can only matter on instances that carry an explicit zero value in an object member -/
-theorem skip_agrees_without_zero (d : Defs) : ∀ (n : Nat) (s : Schema) (j : J), NoZero j →
-    validG true d n s j = validG false d n s j
+/-- ALL readings of the relaxation coincide on instances without explicit zero values in object members -/
+theorem readings_agree_without_zero (m1 m2 : Mode) (d : Defs) : ∀ (n : Nat) (s : Schema) (j : J), NoZero j →
+    validG m1 d n s j = validG m2 d n s j
   | 0, _, _, _ => rfl
   | n+1, s, j, hz => by
     unfold validG
@@ -105,10 +110,10 @@ theorem skip_agrees_without_zero (d : Defs) : ∀ (n : Nat) (s : Schema) (j : J)
     · rw [if_pos hr, if_pos hr]
       cases hl : lookup d s.ref with
       | none => rfl
-      | some t => exact skip_agrees_without_zero d n t j hz
+      | some t => exact readings_agree_without_zero m1 m2 d n t j hz
     · rw [if_neg hr, if_neg hr]
-      have hall : s.allOf.all (fun a => validG true d n a j) = s.allOf.all (fun a => validG false d n a j) :=
-        all_congr2 s.allOf _ _ (fun a _ => skip_agrees_without_zero d n a j hz)
+      have hall : s.allOf.all (fun a => validG m1 d n a j) = s.allOf.all (fun a => validG m2 d n a j) :=
+        all_congr2 s.allOf _ _ (fun a _ => readings_agree_without_zero m1 m2 d n a j hz)
       cases hz with
       | null => rfl
       | bool b => simp only [hall]
@@ -118,15 +123,25 @@ theorem skip_agrees_without_zero (d : Defs) : ∀ (n : Nat) (s : Schema) (j : J)
         simp only [hall]
         cases s.items with
         | none => rfl
-        | some it => simp only [all_congr2 l _ _ (fun x hx => skip_agrees_without_zero d n it x (hl x hx))]
+        | some it => simp only [all_congr2 l _ _ (fun x hx => readings_agree_without_zero m1 m2 d n it x (hl x hx))]
       | obj kvs hk0 hk =>
         have hmem : ∀ k v, lookup kvs k = some v → isZero v = false := fun k v h => hk0 (k, v) (lookup_mem kvs k v h)
         have hmem2 : ∀ k v, lookup kvs k = some v → NoZero v := fun k v h => hk (k, v) (lookup_mem kvs k v h)
-        simp only [hall, reqOk_eq s kvs hmem,
-          propsOk_eq (validG true d n) (validG false d n) s kvs hmem
-            (fun kp _ v hv => skip_agrees_without_zero d n kp.2 v (hmem2 kp.1 v hv)),
-          addlOk_eq (validG true d n) (validG false d n) s kvs
-            (fun a _ kv hkv => skip_agrees_without_zero d n a kv.2 (hk kv hkv)), countOk_eq s kvs hk0]
+        simp only [hall, reqOk_eq m1.rq m2.rq s kvs hmem,
+          propsOk_eq m1.pr m2.pr (validG m1 d n) (validG m2 d n) s kvs hmem
+            (fun kp _ v hv => readings_agree_without_zero m1 m2 d n kp.2 v (hmem2 kp.1 v hv)),
+          addlOk_eq (validG m1 d n) (validG m2 d n) s kvs
+            (fun a _ kv hkv => readings_agree_without_zero m1 m2 d n a kv.2 (hk kv hkv)), countOkM_eq m1 m2 s kvs hk0]
+
+/-- the documented relaxation can only matter on instances that carry an explicit zero value in an object member -/
+theorem skip_agrees_without_zero (d : Defs) (n : Nat) (s : Schema) (j : J) (hz : NoZero j) :
+    validSkip d n s j = valid d n s j := readings_agree_without_zero .relaxed .ref d n s j hz
+
+/-- … and then the most permissive and the most severe per-site combination agree with the reference too: the generated
+    validator has exactly one admissible answer -/
+theorem any_all_agree_without_zero (d : Defs) (n : Nat) (s : Schema) (j : J) (hz : NoZero j) :
+    validAny d n s j = valid d n s j ∧ validAll d n s j = valid d n s j :=
+  ⟨readings_agree_without_zero .any .ref d n s j hz, readings_agree_without_zero .all .ref d n s j hz⟩
 
 /-! ### the gap is real, in both directions -/
 
@@ -144,7 +159,7 @@ theorem zero_of_required_readonly_may_be_missing :
 
 /-! ### sanity of the reference semantics -/
 
-theorem required_missing_invalid (skip : Bool) (d : Defs) (n : Nat) (ps : List (String × Schema)) (r : String) (rs : List String)
+theorem required_missing_invalid (skip : Mode) (d : Defs) (n : Nat) (ps : List (String × Schema)) (r : String) (rs : List String)
     (kvs : List (String × J)) (h : lookup kvs r = none) :
     validG skip d (n+1) (objS (r :: rs) ps) (.obj kvs) = false := by
   simp [validG, objS, h, reqOk]
